@@ -2,13 +2,18 @@
 block leaves chain, indexes and state unchanged (spec/chain/BlockVerify.tla).
 
 TLC: exhaustive check of the verify;store pipeline over every (position, version, committed field)
-tamper, every non-continuing / wrong-root / stale-class offer and blocks verified ahead of the
-head; four design switches are flipped one at a time as a self-test (TLC must object).
+tamper, every non-continuing / wrong-root / stale-class offer, every INAPPLICABLE state diff that
+neither hash nor root shows (an entry moved between two sections the state-diff commitment folds
+together, or re-stating what the state holds: re-deploy, replace of a new address, migrate of a new
+class, re-declaration, second migration) and blocks verified ahead of the head; the design switches
+(checks and state-layer guards) are flipped one at a time as a self-test (TLC must object).
 Binding: (a) TLC-generated behaviours are replayed on a real blockchain.Blockchain (both state
 backends): valid blocks come from the real Simulate, a tampered offer is a deep copy with exactly
 one concrete field altered and all declared hashes kept; the specification's accept/reject, the
 raw database dump and the reader API are compared after every offer; the generator's cursor walks
-every (version, committed field) pair. (b) the repository's real fixture blocks (all formats back
+every (version, committed field) pair; a second generator grows chains that deploy, declare and
+migrate and offers every kind of inapplicable diff at every position (rejected, database and reads
+unchanged). (b) the repository's real fixture blocks (all formats back
 to pre-0.7) must verify, chains from genesis must be stored, and the same single-field tamperings
 restricted to what their format commits to must be rejected.
 """
@@ -29,7 +34,11 @@ def run(ctx):
     ctx.tlc_check("chain", "MCBlockVerify.tla", "BlockVerify_quick.cfg", timeout=900)
     # self-test of the properties: each design switch flipped must be caught by TLC (the fifth:
     # the new-root check skipped for blocks whose state diff has no entry)
-    tests = ("emptydiffroot",) if not thorough else ("nosucc", "noroot", "emptydiffroot", "notxhash", "earlywrite")
+    # ("redeclare" is the model of the code as it is: Sierra re-declaration is not refused - finding
+    # block-verify:accepted-inapplicable:redeclare*; every other run uses the repaired design)
+    tests = ("emptydiffroot", "nodeployguard") if not thorough else (
+        "nosucc", "noroot", "emptydiffroot", "notxhash", "earlywrite",
+        "nodeployguard", "noexistguard", "nomigrateguard", "redeclare")
     for name in tests:
         r = ctx.tlc_check("chain", "MCBlockVerify.tla", "BlockVerify_self_%s.cfg" % name, timeout=600,
                           expect_violation=True, label="selftest:" + name)
@@ -99,6 +108,47 @@ def run(ctx):
         raise vlib.Broken("tamperings replayed with a real target differ from Committed: missing %s"
                           % sorted(want - replayed)[:8])
 
+    # second generator: inapplicable state diffs (every kind on both state backends)
+    kinds = set(tables["inapkinds"])
+    inap, seen, run_i = [], set(), 0
+    while True:
+        got = ctx.tlc_simulate("chain", "BlockVerifyMBT.tla", "BlockVerify_siminap.cfg", depth=850 if not thorough else 3400,
+                               seed=ctx.seed * 1000 + 500 + run_i, timeout=900)
+        run_i += 1
+        for b in got:
+            if isinstance(b, dict):
+                continue
+            for st in b:
+                if st["a"]["name"] == "OfferInapplicable":
+                    seen.add((st["a"]["kind"], len(inap) % 2))   # the replayer alternates the state backend
+            inap.append(b)
+        if len(seen) == 2 * len(kinds):
+            break
+        if run_i >= 6:
+            raise vlib.Broken("behaviour generation does not reach every kind of inapplicable diff on both backends: %s"
+                              % sorted(set((k, n) for k in kinds for n in (0, 1)) - seen))
+    res2 = ctx.run_engine(binary, "TestBlockVerifyReplay", {"seed": 0, "start": 0, "behaviours": inap, "concurrent": False},
+                          timeout=3000)
+    n_before = len(ctx.violations)
+    keep = {k: ctx.coverage.get(k) for k in ("outcomes", "offers_by_shape")}
+    ctx.absorb(res2, "blockverify", "TestBlockVerifyReplay")
+    ctx.coverage["inapplicable_outcomes"] = ctx.coverage.get("outcomes")
+    ctx.coverage.update(keep)
+    ctx.coverage.pop("covered", None)
+    st2 = res2.get("stats", {})
+    for o in st2.get("observations") or []:
+        print("OBSERVATION: property=%s %s" % (ctx.prop, o), flush=True)
+    ctx.coverage["observations"] = len(obs) + len(st2.get("observations") or [])
+    offered = st2.get("inapplicable_offers", {})
+    ctx.coverage["inapplicable_offers"] = offered
+    ctx.coverage["engine_wall_s"] = {"replay": res.get("_wall_s"), "replay_inapplicable": res2.get("_wall_s")}
+    ctx.coverage["behaviours_generated"] += len(inap)
+    ctx.coverage["steps_replayed"] += res2.get("steps", 0)
+    if len(ctx.violations) == n_before:
+        missing = [k + "/" + be for k in sorted(kinds) for be in ("core/deprecatedstate", "core/state") if not offered.get(k + "/" + be)]
+        if missing:
+            raise vlib.Broken("inapplicable diffs not replayed with a real target: %s" % missing)
+
     fx = ctx.run_engine(binary, "TestBlockVerifyFixtures",
                         {"repo": vlib.REPO, "legacy": tables["legacy"], "committed": tables["committed"]},
                         timeout=3000)
@@ -111,6 +161,9 @@ def run(ctx):
         "(receipt l2_gas, fee unit, execution resources, events bloom, signatures, legacy DEPLOY/DECLARE-v0 fields are "
         "deliberately not listed); see spec/chain/MCBlockVerify.tla",
         "one Batch.Write is atomic (C15/C05 examine that)",
+        "applicability is the protocol's: an address is deployed once, only existing contracts are replaced, a Sierra class "
+        "is declared once, only a class declared under the old compiled class hash is migrated, once; re-declaring a "
+        "Cairo-0 class is legal in the network's history and not examined",
     ]
     return ctx.finish(
         "model_checking",
